@@ -443,7 +443,9 @@ func runSubSettleBehaviour(t *testing.T, res *drv.Result, cfg subCfg, steps []wS
 				p := a.Args[0].(string)
 				done := make(chan error, 1)
 				ch := r.par[p]
-				go func() { done <- ch.Settle(context.Background(), false) }()
+				// the party that settles second says so (the documented use of the flag), honest runs only
+				secondary := !cfg.Adversary && st.pre["paid"].(tla.Rec)[peerOf(p)].(bool)
+				go func() { done <- ch.Settle(context.Background(), secondary) }()
 				w.Quiesce()
 				deadline := start.Add(time.Duration(st.post["now"].(int)) * tick).Add(time.Second)
 				if d := time.Until(deadline); d > 0 {
